@@ -196,6 +196,20 @@ fn check_group(w: &World, si: usize, seq: &[u8], parts: &[usize], only: Option<&
         _ => return (vec![], 1, 0, 0),
     };
     let full = nonblank(&base.printed);
+    let mut out = Vec::new();
+    // nobody interrupted this run: the running flag is the caller's; an executor that clears it itself turns the user's
+    // first Ctrl-C into the "second" one (the command line program's handler ends the process when the flag is already
+    // false - a table being printed is cut) and stops the caller's next query before its first line
+    if only.is_none() && (base.flag_false_at.is_some() || !base.flag_after) {
+        out.push(fail(
+            format!("interrupt:flag-cleared-by-the-executor:{}", if base.flag_false_at.is_some() { "while-printing" } else { "after-the-run" }),
+            format!("`{}` ran without any interrupt, yet the caller's running flag was false {}", text, match base.flag_false_at { Some(i) => format!("while record {} was printed", i), None => "after execute() returned".to_string() }),
+            json!({"stmt": si, "statement": text, "seq": seq, "lines": lines, "parts": parts, "interrupt": "None"}),
+            json!("flag untouched"),
+            json!({"flag_false_at": base.flag_false_at, "flag_after": base.flag_after}),
+            seq.len() as u64,
+        ));
+    }
     let mut points: Vec<Interrupt> = Vec::new();
     for k in 0..bc.batch {
         points.push(Interrupt::BeforeBatchLoad(k));
@@ -213,7 +227,6 @@ fn check_group(w: &World, si: usize, seq: &[u8], parts: &[usize], only: Option<&
     if let Some(o) = only {
         points = vec![o.clone()];
     }
-    let mut out = Vec::new();
     let mut evals = 1;
     let mut nontrivial = 0;
     for p in &points {
